@@ -411,6 +411,7 @@ type State struct {
 	pc        []Term
 	defs      []string
 	log       []LogEntry
+	logSym    map[string]*SymLog // symbolic prefix of the call log per callee (set at loop heads)
 	dirty     []dirtyObj
 	dirtyKeep []dirtyObj
 	invSeen   map[string]bool
@@ -427,6 +428,14 @@ type State struct {
 type dirtyObj struct {
 	typ string
 	ref Term
+}
+
+// SymLog: N calls of a callee happened before the concrete entries in State.log; their arguments and results are
+// the elements 1..N of uninterpreted arrays.
+type SymLog struct {
+	N   Term
+	ID  int
+	Sig *logSig
 }
 
 type LogEntry struct {
@@ -446,6 +455,7 @@ func (st *State) clone() *State {
 	n.pc = append([]Term(nil), st.pc...)
 	n.defs = append([]string(nil), st.defs...)
 	n.log = append([]LogEntry(nil), st.log...)
+	n.logSym = st.logSym
 	n.dirty = append([]dirtyObj(nil), st.dirty...)
 	n.invSeen = make(map[string]bool, len(st.invSeen))
 	for k, v := range st.invSeen {
@@ -1033,6 +1043,17 @@ func (x *Exec) distinctRefs(a, b Term) bool {
 	}
 	if x.freshRefs[a.S] && x.freshRefs[b.S] {
 		return true
+	}
+	// a was allocated at or after allocation point n (assumed fresh), b before allocation point m <= n
+	if n, ok := x.lowerOf[a.S]; ok {
+		if m, ok := x.boundOf[b.S]; ok && m <= n {
+			return true
+		}
+	}
+	if n, ok := x.lowerOf[b.S]; ok {
+		if m, ok := x.boundOf[a.S]; ok && m <= n {
+			return true
+		}
 	}
 	if n, ok := x.boundOf[b.S]; ok && x.freshRefs[a.S] && n <= allocNum(a.S) {
 		return true
